@@ -311,7 +311,10 @@ func c09NamesDecoder(c *Ctx, w *prove.World, decA *wcodec, tag int64, layouts ma
 		}
 	}
 	if lenA == nil || ptrA == nil || labA == nil || lenA.Off == nil || lenA.End == nil || labA.Off == nil || labA.End == nil || ptrA.Off == nil || ptrA.End == nil {
-		r.Undecided("names", "DecodeDomainName: shape", decA.pos, "length byte / pointer word / label read not all recognised: "+wire.Render(d.Atoms))
+		// nothing contradicting the rule was observed: the decoder reads its length octet,
+		// pointer or label in a form this rule does not read (e.g. the pointer assembled by
+		// hand from the length octet already read and the next byte)
+		notDecided("length byte / pointer word / label read not all recognised: " + wire.Render(d.Atoms))
 		return
 	}
 	// the label loop and its cursor
